@@ -88,7 +88,7 @@ CONTRACTS = {
         "ensures": {"appended": "sql_data_holder.g_hashes == old(sql_data_holder.g_hashes) + job_hashes"},
     },
     "compute_graph_hashes_for_batch": {
-        "modifies": ["SQLDataHolder.g_hashes"],
+        "modifies": ["SQLDataHolder.g_hashes"], "atomic_raises": True,
         "raises": {"IntegrityError": "any(any(h.job_id == r.job_id for h in sql_data_holder.g_hashes) for r in root_nodes) or "
                                      "any(root_nodes[a].job_id == root_nodes[b].job_id for a in range(len(root_nodes)) for b in range(a + 1, len(root_nodes)))"},
         "ensures": {
